@@ -79,7 +79,8 @@ def parseCase (ws : List String) : Option Case := do
     let retries ← (r.drop 2).toNat?
     let repin := rp == "rp=1"
     let init ← nats (ini.drop 5).toString
-    let ops ← ops.mapM parseOp
+    -- `bulk@i@n` is a harness-only marker (a long log of pins that the script re-asserts right after)
+    let ops ← (ops.filter (fun t => !t.startsWith "bulk@")).mapM parseOp
     let obs ← post.foldlM parseObsTok { members := [], gone := [] }
     pure { tier := tier, repin := repin, retries := retries, init := init, ops := ops, obs := obs }
   | _ => none
